@@ -29,6 +29,8 @@ type syncRun struct {
 	// every p2pFaultEvery-th P2P delivery is preceded by one failing read of the P2P store (0 = never)
 	p2pFaultEvery int
 	p2pCount      int
+	// orderlyOnErr: when the node halts with a fatal error the driver does what FullNode.Run does (orderly shutdown)
+	orderlyOnErr bool
 	cancel  context.CancelFunc
 	ctx     context.Context
 	wg      *sync.WaitGroup
@@ -315,10 +317,19 @@ func (s *syncRun) deliver(kind string, h uint64, via string) {
 	synctest.Wait()
 	if s.isDown() {
 		s.wg.Wait()
+		if s.orderlyOnErr && !s.hasCrashed() && s.full.M != nil {
+			// a fatal error (not a crash): FullNode.Run joins the workers and shuts down in an orderly way
+			if err := s.full.M.SaveCache(); err != nil {
+				s.c.Tr.Emit("SaveCacheErr", world.F{"node": "full", "err": trunc(err.Error())})
+			}
+			s.c.Tr.Emit("Stop", world.F{"node": "full", "clean": true})
+		}
 		s.full.M = nil
 	}
 	s.full.Obs("deliver")
 }
+
+func (s *syncRun) hasCrashed() bool { s.mu.Lock(); defer s.mu.Unlock(); return s.crashed }
 
 // settle: no more faults. Items that are on the DA layer or in the P2P stores are NOT handed to
 // the node again - it has to fetch them itself (DA rescan from its cursor, store polling), as
@@ -387,7 +398,9 @@ func (s *syncRun) stopInFlight(evs [][2]any, pauseAfter int) {
 		return
 	}
 	m := s.full.M
-	s.full.KV.PauseAfter(pauseAfter)
+	if pauseAfter > 0 { // 0: a writer is already parked
+		s.full.KV.PauseAfter(pauseAfter)
+	}
 	for _, e := range evs {
 		kind, h := e[0].(string), e[1].(uint64)
 		if kind == "data" && len(s.dataOf(h).Txs) == 0 {
@@ -578,6 +591,68 @@ func RunSyncStopQueued(c *Ctx) {
 							c.Count("stopqueued", 1)
 						})
 					}
+				}
+			}
+		}
+	}
+}
+
+// RunSyncHandOverStop: the sync loop is parked inside the application of a block (at a durable write) while the
+// DA scan hands the rest of the chain over to it; the events wait in the channels when an orderly stop arrives
+// (caches - with the DA marks the scan has set - are saved); after the restart the scan starts again from the
+// persisted DA height and must hand the same blobs over again.
+func RunSyncHandOverStop(c *Ctx) {
+	for _, ih := range []uint64{1, 2} {
+		for _, shapeName := range []string{"ShapeA", "ShapeE", "ShapeBig"} {
+			for pa := 1; pa <= 3; pa++ {
+				synctest.Run(func() {
+					s := newSyncRun(c, fmt.Sprintf("handover/ih%d/%s/p%d", ih, shapeName, pa), ih, SyncShapes[shapeName], world.F{"src": "handover", "shape": shapeName})
+					defer s.finish()
+					if s.startFull() != nil {
+						return
+					}
+					var rest [][2]any
+					for h := s.ih + 1; h <= s.top; h++ {
+						rest = append(rest, [2]any{"hdr", h}, [2]any{"data", h})
+					}
+					s.full.KV.PauseAfter(pa)
+					s.c.Tr.Emit("Deliver", world.F{"node": "full", "kind": "hdr", "h": int(s.ih), "via": "chan", "dah": int(s.daH)})
+					s.full.M.VerifHeaderInCh() <- block.NewHeaderEvent{Header: s.headerOf(s.ih), DAHeight: s.daH}
+					synctest.Wait() // the first block is being applied: the writer is parked
+					s.stopInFlight(rest, 0)
+					s.settle()
+					c.Count("handover", 1)
+				})
+			}
+		}
+	}
+}
+
+// RunSyncWriteError: a durable write of block application is refused with an error (not a crash): the node
+// halts with a fatal error, shuts down in an orderly way (caches saved), is restarted and gets every block again.
+func RunSyncWriteError(c *Ctx) {
+	for _, ih := range []uint64{1, 3} {
+		for _, shapeName := range []string{"ShapeA", "ShapeE"} {
+			shape := SyncShapes[shapeName]
+			nb := len(shape) + 1
+			for k := 1; k <= 3*nb; k++ {
+				for _, via := range []string{"chan", "da"} {
+					synctest.Run(func() {
+						s := newSyncRun(c, fmt.Sprintf("writeerr/ih%d/%s/k%d/%s", ih, shapeName, k, via), ih, shape, world.F{"src": "writeerr", "shape": shapeName})
+						defer s.finish()
+						if s.startFull() != nil {
+							return
+						}
+						s.orderlyOnErr = true
+						s.full.KV.FailWrite(k)
+						for h := s.ih; h <= s.top; h++ {
+							s.deliver("hdr", h, via)
+							s.deliver("data", h, via)
+						}
+						s.full.KV.FailWrite(0)
+						s.settle()
+						c.Count("writeerr", 1)
+					})
 				}
 			}
 		}
